@@ -271,12 +271,12 @@ deriving DecidableEq, Repr
 def isSecure (p : Profile) : Bool := if Sec.isSecureIsSAVP then p == .savp else false
 
 /-- `isTransportSupported` (`tunnel`: `sc.tunnel != TunnelNone`).  The two profile rules are tied
-to the source by the facts `admitNoPlainUDPOverTLS` / `admitNoSecureOverPlain`. -/
+to the source by the facts `ruleNoPlainUDPOverTLS` / `ruleNoSecureOverPlain`. -/
 def isTransportSupported (cfg : ServerCfg) (tunnel : Bool) (tr : Transport) : Bool :=
   if tr.protocol == .udp &&
      ((!tr.multicast && !cfg.udp) || (tr.multicast && !cfg.mcast) || tunnel ||
-      (Sec.admitNoPlainUDPOverTLS && !isSecure tr.profile && cfg.tls)) then false
-  else if Sec.admitNoSecureOverPlain && isSecure tr.profile && !cfg.tls then false
+      (Sec.ruleNoPlainUDPOverTLS && !isSecure tr.profile && cfg.tls)) then false
+  else if Sec.ruleNoSecureOverPlain && isSecure tr.profile && !cfg.tls then false
   else true
 
 /-- `pickFirstSupportedTransport` -/
